@@ -51,6 +51,10 @@ def entropy_bytes(t):
 
 def run(ctx):
     model = ctx.model
+    from .. import roles as _rm2
+    shared.r_ident(ctx, "R03.ident", (_rm2.get(model).claim_op, _rm2.get(model).release_op),
+                   "two different names lead to one nameplate, or one name to two")
+    shared.r_wire(ctx, "R03.wire")
     from .. import roles as _rolesmod
     shared.r_callers(ctx, "R03.callers", _rolesmod.get(model).release_op, ("release",),
                      "a live nameplate is retired although no claimant released it; the next "
